@@ -176,9 +176,29 @@ Not decided: collisions between distinct ASN.1 names after mangling; exact case-
     // const case delegates to snake case
     if let Some(f) = anchor_fn(m, ctx, "C16.kw", Some("Rasn"), "to_rust_const_case", None) {
         ctx.oblige("C16.kw", "guard:to_rust_const_case", true);
-        let b = tok(&f.block);
-        if !(b.contains("self.to_rust_snake_case(input).to_string().to_uppercase()")) {
-            ctx.violate("C16.kw", "guard:to_rust_const_case", &f.file, f.line, "to_rust_const_case must be the upper-cased output of to_rust_snake_case (which escapes keywords and hyphens)");
+        // evaluated with a snake-case mangler that escapes: the constant name is that result in upper case, nothing else
+        let consts = const_resolver(m);
+        let hook = |_: &Evaluator, name: &str, a: &[Val]| -> Option<Result<Val, String>> {
+            match name {
+                ".to_rust_snake_case" => match a.get(1) { Some(Val::Str(n)) => Some(Ok(Val::Str(format!("r_{}", n.replace('-', "_"))))), _ => None },
+                "Ident::new" | "proc_macro2::Ident::new" => Some(Ok(a.first().cloned().unwrap_or(Val::Unit))),
+                "Span::call_site" | "proc_macro2::Span::call_site" => Some(Ok(Val::Unit)),
+                _ => None,
+            }
+        };
+        let ev = Evaluator { consts: &consts, call_hook: &hook, inline: None };
+        let p = f.sig.inputs.iter().filter_map(|a| match a { syn::FnArg::Typed(t) => Some(tok(&t.pat)), _ => None }).next().unwrap_or("input".into());
+        let mut env = Env::new();
+        env.insert("self".into(), Val::ctor("Rasn"));
+        env.insert(p, Val::Str("type-x".into()));
+        match ev.eval_fn_body(&f.block, &mut env) {
+            Ok(Val::Str(out)) | Ok(Val::Sym(out)) => {
+                if out != "R_TYPE_X" {
+                    ctx.violate("C16.kw", "guard:to_rust_const_case", &f.file, f.line, &format!("to_rust_const_case(\"type-x\") = `{}` when to_rust_snake_case gives `r_type_x`: it must be the upper-cased output of to_rust_snake_case (which escapes keywords and hyphens)", out));
+                }
+            }
+            Ok(o) => ctx.fail_closed("C16.kw", &format!("[to_rust_const_case]: {}", o.show())),
+            Err(e) => ctx.fail_closed("C16.kw", &format!("[to_rust_const_case]: {}", e)),
         }
     }
     for n in ["to_rust_snake_case", "to_rust_enum_identifier", "to_rust_title_case"] {
@@ -299,9 +319,25 @@ fn annotation_sites(m: &Model, ctx: &mut Ctx) {
     // the type-level annotation helper renders the original name
     if let Some(f) = anchor_fn(m, ctx, "C16.annot", Some("Rasn"), "format_identifier_annotation", None) {
         ctx.oblige("C16.annot", "renders-original-name", true);
-        let b = tok(&f.block);
-        if !b.contains("else{quote!(identifier=#name)}") {
-            ctx.violate("C16.annot", "renders-original-name", &f.file, f.line, "format_identifier_annotation must render `identifier = <original ASN.1 name>` for ordinary (non-hoisted) definitions");
+        // evaluated for an ordinary definition (documented or not): the annotation carries the name as written
+        let consts = const_resolver(m);
+        let ev = Evaluator { consts: &consts, call_hook: &crate::eval::no_hook, inline: None };
+        let params: Vec<String> = f.sig.inputs.iter().filter_map(|a| match a { syn::FnArg::Typed(t) => Some(tok(&t.pat)), _ => None }).collect();
+        for comments in ["", " the speed of the vehicle"] {
+            let mut env = Env::new();
+            env.insert("self".into(), Val::ctor("Rasn"));
+            env.insert(params.first().cloned().unwrap_or("name".into()), Val::Str("Speed-Value".into()));
+            env.insert(params.get(1).cloned().unwrap_or("comments".into()), Val::Str(comments.into()));
+            env.insert(params.get(2).cloned().unwrap_or("ty".into()), Val::Ctor("Integer".into(), vec![Val::Opaque("i".into())], Default::default()));
+            match ev.eval_fn_body(&f.block, &mut env) {
+                Ok(v) => {
+                    let t = v.show().replace(' ', "");
+                    if !(t.contains("identifier=\"Speed-Value\"") || t.contains("identifier=Speed-Value")) {
+                        ctx.violate("C16.annot", "renders-original-name", &f.file, f.line, &format!("format_identifier_annotation(\"Speed-Value\", comments {:?}) renders `{}`: it must render `identifier = <original ASN.1 name>` for ordinary (non-hoisted) definitions", comments, t.chars().take(80).collect::<String>()));
+                    }
+                }
+                Err(e) => ctx.fail_closed("C16.annot", &format!("[format_identifier_annotation]: {}", e)),
+            }
         }
     }
 }
